@@ -7,7 +7,7 @@ Inputs are DIRECTED by the case splits of the sieve: products p*q of sieving pri
 first / last byte of the k-th segment for several sieve sizes, primes just below / above the
 EratSmall / EratMedium / EratBig thresholds, every (start mod 30, stop mod 30) pair, magnitudes
 up to 2^64-1, degenerate intervals."""
-import os, math
+import math, os
 from .common import *
 from . import oracle
 
@@ -130,6 +130,16 @@ def gen_ops(tier, r):
             nseg = r.choice([1, 2, 3])
             s0 = max(0, e0 - 30 * 16384 * nseg - r.randrange(0, 30 * 16384))
             ops.append(("feed-boundary", f"seg {s0} {e0} 16"))
+    # 4c. the source itself: drain the generator's SievingPrimes object after the first segment (stop <= 10^12)
+    for _ in range(10 if q else 80):
+        e0 = r.choice([r.randrange(30000, 10**6), r.randrange(10**6, 10**9), r.randrange(10**9, 10**12)])
+        if r.random() < 0.3:
+            pp = math.isqrt(e0)
+            while not is_p(pp):
+                pp += 1
+            e0 = pp * pp + r.choice([-1, 0, 1])
+        s0 = max(0, e0 - r.choice([0, 1000, 30 * 16384, 3 * 30 * 16384, r.randrange(0, 10**7)]))
+        ops.append(("sieving-primes-source", f"sp {s0} {e0} {r.choice([16, 32, 64])}"))
     # 5. random
     for _ in range(20 if q else 200):
         s0 = r.randrange(0, 10**r.randrange(3, 13))
@@ -166,11 +176,10 @@ def analyse(ops, res):
             break
         a = il[n]
         obs = a.split(" => ", 1)[-1]
-        if "content=" in obs and "content=ok" not in obs:
+        if ("content=" in obs and "content=ok" not in obs) or "ORACLE-MISMATCH" in obs:
             content.append((o, obs))
-        if n < len(ml) and a != ml[n]:
-            if "content=ok" in obs or obs.startswith("ERR"):
-                geom.append((o, a, ml[n]))
+        elif n < len(ml) and a != ml[n]:
+            geom.append((o, a, ml[n]))
         if "segs=" in obs:
             try:
                 segs = int(obs.split("segs=")[1].split()[0])
@@ -178,6 +187,8 @@ def analyse(ops, res):
                 segs = 0
             if segs >= 1:
                 nontrivial.add(o)
+        elif o.startswith("sp ") and " n=0 " not in obs:
+            nontrivial.add(o)
             if segs >= 2:
                 multi += 1
     st = {"evaluations": len(il), "distinct_nontrivial": len(nontrivial), "multi_segment_cases": multi,
